@@ -45,7 +45,13 @@ def hostile_name(rng: random.Random) -> str:
                            'bob', '../bob', '../../base/bob', 'bob/INBOX',
                            '../pymap-etc-passwd', '.', '..', '', '/',
                            '../bob/.Secret', '../bob/Secret', '.bob',
-                           '../../../../../../../../tmp/vf-escape'])
+                           '../../../../../../../../tmp/vf-escape',
+                           # look-alikes of '.', '..' and '/' (NFKC)
+                           '\u2025/bob/Secret', '\u2024\u2024/bob/Secret',
+                           '\uff0e\uff0e/bob', '\u2025', '\u2024',
+                           '\u2025/\u2025/base/bob', '\u2025\uff0fbob',
+                           '\uff29\uff2e\uff22\uff2f\uff38/',
+                           '\u2025/pymap-etc-passwd'])
     if r < 0.85:
         return 'x' * rng.choice([255, 256, 300, 1000, 5000])
     return gen.tidy_name(rng)
